@@ -182,7 +182,7 @@ pub fn j_addmono(a: i128, b: i128, out: &mut Local) {
     }
 }
 
-const DERIVE: [&str; 18] = ["neg", "abs", "neg_neg", "add_zero", "sub_self_plus", "mul_1", "mul_neg1", "div_1", "max_minus", "saturated_max_minus", "min_plus", "saturated_min_plus", "minus_century", "plus_century", "minus_max", "minus_min", "max_minus_then_plus", "half_twice"];
+const DERIVE: [&str; 36] = ["neg", "abs", "neg_neg", "add_zero", "sub_self_plus", "mul_1", "mul_neg1", "div_1", "max_minus", "saturated_max_minus", "min_plus", "saturated_min_plus", "minus_century", "plus_century", "minus_max", "minus_min", "max_minus_then_plus", "half_twice", "add_assign_ns", "add_assign_us", "add_assign_ms", "add_assign_s", "add_assign_min", "add_assign_h", "add_assign_day", "add_assign_week", "add_assign_century", "sub_assign_ns", "sub_assign_us", "sub_assign_ms", "sub_assign_s", "sub_assign_min", "sub_assign_h", "sub_assign_day", "sub_assign_week", "sub_assign_century"];
 /// operands produced by real operations (not by the constructor) must compare like their count: a value whose
 /// representation escaped the canonical form would compare wrongly against the same count built directly
 pub fn j_derived(op: usize, a: i128, out: &mut Local) {
@@ -209,7 +209,19 @@ pub fn j_derived(op: usize, a: i128, out: &mut Local) {
             14 => da - Duration::MAX,
             15 => da - Duration::MIN,
             16 => (Duration::MAX - da) + da,
-            _ => da / 2 + da / 2,
+            17 => da / 2 + da / 2,
+            // the compound assignment forms with a Unit operand (their own carry code): the result lands on a century when
+            // the operand is one unit short of (past) it
+            18..=26 => {
+                let mut x = da;
+                x += UNITS[op - 18];
+                x
+            }
+            _ => {
+                let mut x = da;
+                x -= UNITS[op - 27];
+                x
+            }
         };
         let v = alpha(d);
         if !(DMIN..=DMAX).contains(&v) {
@@ -319,11 +331,28 @@ pub fn run(rep: &mut Report) {
         sweep(rep, "c03.scan_triple", nsc / 4, |i, out| j_triple(scan_dur(i, 2), scan_dur(i, 3), scan_dur(i, 4), out));
         sweep(rep, "c03.scan_addmono", nsc, |i, out| j_addmono(scan_dur(i, 5), scan_dur(i + 1, 0), out));
         sweep(rep, "c03.scan_unit", 9 * (nsc / 8), |i, out| j_unit(scan_dur(i / 9, 1), UNITS[(i % 9) as usize], out));
-        sweep(rep, "c03.scan_derived", 18 * (nsc / 16), |i, out| j_derived((i % 18) as usize, scan_dur(i / 18, 2), out));
+        sweep(rep, "c03.scan_derived", 36 * (nsc / 32), |i, out| j_derived((i % 36) as usize, scan_dur(i / 36, 2), out));
     }
     sweep(rep, "c03.unit", n * 9, |i, out| j_unit(dl[(i / 9) as usize], UNITS[(i % 9) as usize], out));
     sweep(rep, "c03.addmono", n * n, |i, out| j_addmono(dl[(i / n) as usize], dl[(i % n) as usize], out));
-    sweep(rep, "c03.derived", n * 18, |i, out| j_derived((i % 18) as usize, dl[(i / 18) as usize], out));
+    sweep(rep, "c03.derived", n * 36, |i, out| j_derived((i % 36) as usize, dl[(i / 36) as usize], out));
+    // operands one or two units short of / past every century anchor (and of zero), through every derived operation
+    {
+        let mut near: Vec<i128> = vec![];
+        for c in lattice::CENTURY_ANCHORS {
+            for u in lattice::UNIT_NS {
+                for k in [-2i128, -1, 1, 2] {
+                    let v = c * NPC + k * u;
+                    if (DMIN..=DMAX).contains(&v) {
+                        near.push(v);
+                    }
+                }
+            }
+        }
+        near.sort();
+        near.dedup();
+        sweep(rep, "c03.derived[unit-from-century]", near.len() as u64 * 36, |i, out| j_derived((i % 36) as usize, near[(i / 36) as usize], out));
+    }
 }
 
 pub fn replay(check: &str, a: &[String], out: &mut Local) -> bool {
